@@ -7,7 +7,9 @@
 #include "src/comm.c"
 #include "verif.h"
 #define NU 3
+#ifndef TXT
 #define TXT 4
+#endif
 #define IN_FIELDS(S,A) S(int, cursor) A(int, present, NU) A(int, flags, NU) A(int, start, NU) A(int, len, NU) A(char, txt, NU * TXT)
 #include "verif_in.h"
 
@@ -65,6 +67,10 @@ void harness (void)
           ip->text[i + k] = (k < IN.len[i]) ? c : 0;
         }
       ip->text[i + TXT] = 0;                                 /* reader invariant: text[text_end] == 0 */
+#ifdef PRESENT
+      /* case split: which slots hold a connection (bit i of PRESENT); the jobs together cover all 8 tables */
+      __CPROVER_assume ((IN.present[i] != 0) == ((PRESENT >> i) & 1)); IN.present[i] = (PRESENT >> i) & 1;
+#endif
       all_users[i] = IN.present[i] ? ip : 0;
       off[i] = ref_first_cmd (i, &clen[i]);
       elig[i] = IN.present[i] && (IN.flags[i] & CMD_IN_BUF) && (IN.flags[i] & HAS_CMD_TURN) && off[i] >= 0;
